@@ -440,6 +440,10 @@ def make_probes(bad, ids):
         if w["la"] != "$" and w["pos"] <= len(toks):
             add("cut", toks[:w["pos"] - 1])
         add("plain", toks)
+        if w["la"] in RESERVED and w["pos"] <= len(toks):
+            # is it this word, or would any name do?  (the same document with a plain name in its place)
+            i = w["pos"] - 1
+            add("la-name", toks[:i] + [{"k": "NAME", "s": PLAIN["NAME"], "src": []}] + toks[i + 1:])
         for i, t in [(i, t) for i, t in enumerate(toks) if not is_plain(t)][:48]:
             add(f"tok:{i}", toks[:i] + [plain_token(t)] + toks[i + 1:])
         owner[key] = (case, mine)
@@ -505,7 +509,7 @@ def signatures(prop: str, case, val, resolved: dict):
                             f"verdict differs from the grammar's only for this representative of the token class: {res[1]} "
                             f"({o['err'].strip()[:80]!r})"))
                 continue
-            at = "<end>" if res[0] == "end" else at_name(case, w)
+            at = "<end>" if res[0] == "end" else "NAME" if res[0] == "any-name" else at_name(case, w)
             at = STRINGISH.get(at, at)
             if direction == "accepts-invalid":
                 out.append((f"{prop}:{g}:accepts-invalid:in={in_name(w, at)}:at={at}",
@@ -613,6 +617,11 @@ def classify(chk: vlib.Check, bindir: Path, bad, ids):
             w = same(mine["cut"], direction)
             if w is not None and w["la"] == "$":
                 resolved[key] = ("end", None)
+                continue
+        if "la-name" in mine:
+            w = same(mine["la-name"], direction)
+            if w is not None and (w["pos"], w["inn"]) == (w0["pos"], w0["inn"]):
+                resolved[key] = ("any-name", None)
     return resolved
 
 
